@@ -4,7 +4,11 @@ Tie: bounded scheduling programs are interpreted against the real IOLoop (BaseAs
 Lean model (`C38 run`); the two event traces are compared exactly.  The oracle (`C38 spec`) evaluates the Lean trace
 predicates of Spec.lean — the statements proved about the model — on the trace observed from the real loop.
 run_sync is exercised with plain functions, native/generator coroutines and bare futures on an auto-advancing virtual
-clock; the thorough tier adds real threads calling add_callback on a real loop.  `xloop` cases (both tiers) run two or
+clock (and the function's future must be cancelled when TimeoutError is raised); `rsseq` cases run whole main programs
+-- several run_sync calls, blocking pauses, plain start()s -- on ONE IOLoop and compare everything observable after each
+operation (outcome, state of the awaited future, CancelledError seen by the coroutine, elapsed ticks, timers and handles
+left on the loop, log records) with the loop machine of RunSync.lean (`C38 rsseq`); oracle `C38 rsspec`.
+The thorough tier adds real threads calling add_callback on a real loop.  `xloop` cases (both tiers) run two or
 three REAL event loops in their own threads and hand callbacks from one to the other (from a coroutine / callback /
 timer / gen.coroutine / executor thread of loop A, from a plain thread, from the target loop itself) while the target
 is blocked in select(); the branch taken by add_callback and the callbacks run are compared with `C38 xthread`
@@ -25,6 +29,9 @@ THEOREMS = [_T + n for n in [
     "run_sync_reraises", "run_sync_timeout", "run_sync_never_completing",
     "invA_step", "invB_step", "invD_step", "invE_step", "invF_step", "reach_inv",
     "add_callback_any_thread", "add_callback_path", "add_callback_needs_wakeup",
+    "run_sync_timeout_after_cancel", "run_sync_leaves_no_timeout", "run_sync_machine_agrees_bounded",
+    "run_sync_stale_stop_legacy", "run_sync_stale_stop_fixed",
+    "RS.inv_exec", "RS.inv_start", "RS.runOps_ok", "RS.tsub_exec", "RS.tsub_start", "RS.runOps_noTmo",
 ]]
 TRUSTED = [
     "asyncio's event loop as abstracted in C38/Model.lean: FIFO ready queue with per-iteration snapshot, timers moved to "
@@ -39,6 +46,12 @@ ASSUMPTIONS = [
     "programs: <= 15 scheduling calls, each callback body scheduled at most once, integer tick clock (exact in floats)",
     "run_sync: awaitables whose completion time is a fixed number of ticks; completion time == timeout counts as timeout "
     "(the timeout timer is armed first and asyncio fires equal deadlines in arming order when only two are armed)",
+    "rsseq (several run_sync calls / pauses / plain start()s on ONE loop): functions are plain functions, native "
+    "coroutines sleeping a fixed number of ticks, bare Futures resolved by call_later, and never-resolving Futures with "
+    "a call_later(io.stop); <= 6 operations; the clock moves only when nothing is ready; equal deadlines fire in the order "
+    "observed (a parameter of the model).  The oracle checks the outcome clause only while no explicit IOLoop.stop() asked "
+    "for by the main program can still be pending (what a stray user stop does to later calls is outside the property) and "
+    "accepts either outcome at an exact completion/timeout tie",
     "xloop: bursts of add_callback/spawn_callback calls are issued one burst at a time (one scheduling thread at a time), "
     "the target loop being blocked in select() (no timer, a timer an hour away, asyncio debug mode) or ticking every 20 ms; "
     "'did not run' is decided without a clock: a callback that has not run when a later raw call_soon_threadsafe probe "
@@ -51,7 +64,11 @@ RULE = ("random scheduling programs (add_callback/spawn_callback, add_timeout ab
         "xloop: 2-3 real event loops in threads (asyncio.run / IOLoop.start; idle, far timer, asyncio debug, 20 ms ticker), "
         "bursts of add_callback/spawn_callback (args, kwargs, closure) from a plain thread, an executor thread, or a "
         "callback / coroutine / IOLoop callback / timer / gen.coroutine of another loop or of the target loop itself, "
-        "every calling context towards every target configuration in both tiers; non-trivial = a thread-safe enqueue happened")
+        "every calling context towards every target configuration in both tiers; non-trivial = a thread-safe enqueue happened; "
+        "rsseq: main programs of 1-6 operations on one IOLoop (run_sync of raising / returning / coroutine / bare-Future / "
+        "loop-stopping functions with timeouts 0..9 incl. ties, blocking pauses, plain start()s), a third of them built "
+        "around 'an earlier call ended early with its timeout still in the future, later the loop runs past that deadline'; "
+        "non-trivial = a call with a timeout on an awaitable")
 EXHAUSTIVE = {"quick": False, "thorough": False}
 CLAUSES = {
     "callbacks each run exactly once, in scheduling order per thread": "callback_once_fifo + callback_all_ran_when_idle "
@@ -65,7 +82,21 @@ CLAUSES = {
         "timeout_pending_or_done); the same Spec predicates are evaluated on every observed trace",
     "exceptions are logged without stopping the loop": "errors_logged + errors_do_not_stop_loop + loop_continues",
     "add_future callbacks always run on a later iteration": "add_future_later_iteration",
-    "run_sync returns the result, re-raises, or raises TimeoutError after cancelling": "run_sync_outcomes (+ run_sync_result/_reraises/_timeout/_never_completing)",
+    "run_sync returns the result, re-raises, or raises TimeoutError": "tie only for the general statement "
+        "(run_sync_machine_outcomes_goal is a def, not a theorem): the loop machine of RunSync.lean (run_sync modelled "
+        "statement by statement on a ready queue + timers + stop flag; sequences of calls on one loop) is compared exactly "
+        "with the real IOLoop on every rsseq case (outcome, state of the awaited future, elapsed ticks, timers and handles "
+        "left on the loop, log records) and Spec.rsAllowed is applied to the observed outcomes.  Proved: "
+        "run_sync_machine_agrees_bounded (machine = table = Spec for one call, durations/timeouts < 5, by evaluation); "
+        "run_sync_outcomes (+ _result/_reraises/_timeout/_never_completing) relate the stand-alone table runSync/loopPhase "
+        "to Spec.runSyncSpec only (table against table)",
+    "... after cancelling it": "run_sync_timeout_after_cancel (every main program, every tie-break: TimeoutError => "
+        "timeout_callback had requested cancel() on the function's future and it was accepted); that the future IS cancelled "
+        "when run_sync returns and that a started coroutine saw CancelledError: tie + oracle (timeout_not_cancelled, "
+        "coroutine_not_cancelled) on the real loop",
+    "(run_sync cleans up after itself)": "run_sync_leaves_no_timeout (no timeout_callback stays armed, whatever the "
+        "outcome); no stop wrapper stays queued: run_sync_stale_stop_fixed/_legacy (witness of the repaired defect) + tie "
+        "(handles left on the loop are compared after every operation)",
 }
 PARALLEL = False
 CASE_TIMEOUT = 60
@@ -138,6 +169,68 @@ def _gen_runsync(rng):
             "variant": rng.choice(["coro", "gen", "future"])}
 
 
+RS_DURS = [None, 0, 0, 1, 2, 3, 5, 8]
+RS_TMOS = [None, 0, 1, 2, 3, 4, 5, 6, 9]
+
+
+def _rs_fn(rng, allow_stop=True):
+    r = rng.random()
+    if r < 0.22:
+        return [rng.choice(["raises", "raises", "retNone", "retValue"])]
+    if r < 0.90 or not allow_stop:
+        return [rng.choice(["coro", "fut"]), rng.choice(RS_DURS), rng.random() < 0.6]
+    return ["stopsLoop", rng.choice([0, 1, 2, 4, 7])]
+
+
+def _rs_call(rng, allow_stop=True):
+    fn = _rs_fn(rng, allow_stop)
+    t = rng.choice(RS_TMOS)
+    if fn[0] in ("coro", "fut") and fn[1] is None and t is None:      # would never return
+        t = rng.randint(0, 5)
+    return ["call", fn, t]
+
+
+def _gen_rsseq(rng):
+    """a main program using ONE IOLoop for several run_sync calls (and blocking pauses / plain start()s in between)"""
+    r = rng.random()
+    if r < 0.25:                       # a single call (every function kind x timeout, ties included)
+        ops = [_rs_call(rng)]
+    elif r < 0.55:
+        # an earlier call ends early (raises / quick result / explicit stop) with a timeout still in the future; later
+        # the loop runs past that old deadline
+        t = rng.choice([1, 2, 3, 4, 5, 6, 9])
+        first = rng.choice([["raises"], ["raises"], ["retNone"], ["retValue"], ["coro", 0, False], ["coro", 0, True],
+                            ["fut", rng.randint(0, t), False], ["coro", rng.randint(0, t), rng.random() < 0.5],
+                            ["stopsLoop", rng.randint(0, t)]])
+        ops = [["call", first, t]]
+        for _ in range(rng.randint(0, 2)):
+            k = rng.random()
+            if k < 0.35:
+                ops.append(["advance", rng.choice([0, 1, 2, t, t + 1])])
+            elif k < 0.5:
+                ops.append(["runFor", rng.choice([0, 1, t - 1, t, t + 1, t + 3])])
+            else:
+                ops.append(_rs_call(rng, allow_stop=False))
+        long = rng.choice([t - 1, t, t + 1, t + 2, 2 * t + 1])
+        ops.append(rng.choice([["call", [rng.choice(["coro", "fut"]), long, rng.random() < 0.7],
+                                rng.choice([None, None, long + 1, long + 4])],
+                               ["runFor", long]]))
+        if rng.random() < 0.3:
+            ops.append(_rs_call(rng, allow_stop=False))
+    else:
+        allow = rng.random() < 0.35
+        ops = []
+        for _ in range(rng.randint(2, 6)):
+            k = rng.random()
+            if k < 0.15:
+                ops.append(["advance", rng.choice([0, 1, 2, 3, 5, 9])])
+            elif k < 0.22 and allow:
+                ops.append(["runFor", rng.choice([0, 1, 2, 4, 7])])
+            else:
+                ops.append(_rs_call(rng, allow_stop=allow))
+    return {"kind": "rsseq", "ops": ops}
+
+
 XFORMS = ["plain", "executor", "callback", "coro", "ioloop_cb", "timer", "gen"]   # where the calling code runs
 XLOOPFORMS = [f for f in XFORMS if f not in ("plain", "executor")]                # ... with a running loop
 XAPIS = ["args", "kwargs", "closure", "spawn", "spawn_kw"]
@@ -176,6 +269,7 @@ def _gen_xloop(rng, target=None, nloops=2, extra=4, maxn=8):
 
 def gen_cases(rng, tier):
     n_p, n_r, n_t = {"quick": (3000, 600, 0), "thorough": (60000, 6000, 12), "search": (2500, 400, 0)}[tier]
+    n_s = {"quick": 1500, "thorough": 20000, "search": 1500}[tier]
     # two real event loops in two threads (seeded/C38-1): systematic over how the target loop was made and what it is doing
     if tier != "search":
         for make in XMAKES:
@@ -187,6 +281,8 @@ def gen_cases(rng, tier):
         yield _gen_prog(rng)
     for _ in range(n_r):
         yield _gen_runsync(rng)
+    for _ in range(n_s):
+        yield _gen_rsseq(rng)
     for i in range(n_t):
         yield {"kind": "threads", "threads": rng.randint(2, 6), "per": rng.choice([50, 200, 500]), "nonce": i}
 
@@ -370,6 +466,14 @@ def _run_runsync(case):
                 lp._vtime = max(lp._vtime, ts[0])
             orig_once()
         lp._run_once = run_once
+        cell = []
+        orig_add_future = io.add_future
+
+        def add_future(fut, cb):
+            if "run_sync" in getattr(cb, "__qualname__", ""):      # the call made by run_sync's `run`, not a gen Runner's
+                cell.append(fut)
+            return orig_add_future(fut, cb)
+        io.add_future = add_future
         kind = func[0]
         if kind == "raises":
             def f():
@@ -433,7 +537,152 @@ def _run_runsync(case):
             out = "runtimeError" if "stopped before" in str(e) else "Uncaught:RuntimeError:%s" % e
         except Exception as e:
             out = "Uncaught:" + type(e).__name__
-        return {"outcome": out}
+        return {"outcome": out, "cancelled": bool(cell and cell[0].cancelled())}
+
+
+def _run_rsseq(case):
+    """several run_sync calls (and pauses / plain start()s) on ONE IOLoop over a virtual clock that moves only when nothing
+    is ready.  Observed per operation: outcome, state of the future run_sync waited for (captured at IOLoop.add_future),
+    whether the coroutine saw CancelledError, elapsed ticks, timers still armed (numbered in arming order, all of them:
+    the loop's call_at is wrapped), handles still queued, log records."""
+    from core import vloop
+    from tornado import gen
+    from tornado.concurrent import Future
+    sink, recs = [], []
+    with _capture_logs(sink), vloop.installed() as lp:
+        io = lp.io_loop
+        orig_once = lp._run_once
+
+        def run_once():
+            if not lp._ready:
+                ts = lp.live_timers()
+                if not ts:
+                    raise _Hang()
+                lp._vtime = max(lp._vtime, ts[0])
+            orig_once()
+        lp._run_once = run_once
+        handles, fired = [], []
+        orig_call_at = lp.call_at
+
+        def call_at(when, callback, *args, context=None):
+            tid = len(handles)
+
+            def wrapped(*a):
+                fired.append(tid)
+                return callback(*a)
+            h = orig_call_at(when, wrapped, *args, context=context)
+            handles.append(h)
+            return h
+        lp.call_at = call_at
+        cell = []
+        orig_add_future = io.add_future
+
+        def add_future(fut, cb):
+            if "run_sync" in getattr(cb, "__qualname__", ""):      # the call made by run_sync's `run`, not a gen Runner's
+                cell.append(fut)
+            return orig_add_future(fut, cb)
+        io.add_future = add_future
+        now = lambda: int(round(lp._vtime - BASE))
+
+        def rest():
+            return {"timers": [[i, int(round(h._when - BASE))] for i, h in enumerate(handles)
+                               if not h._cancelled and h._scheduled],
+                    "nready": sum(1 for h in lp._ready if not h._cancelled)}
+
+        def make(fn, rec):
+            kind = fn[0]
+            if kind == "raises":
+                def f():
+                    raise ValueError("user")
+            elif kind == "retNone":
+                def f():
+                    return None
+            elif kind == "retValue":
+                def f():
+                    return 42
+            elif kind == "stopsLoop":
+                def f():
+                    io.call_later(fn[1], io.stop)
+                    return Future()
+            elif kind == "fut":
+                d, ok = fn[1], fn[2]
+
+                def f():
+                    fut = Future()
+                    if d is not None:
+                        def res():
+                            if ok:
+                                fut.set_result(42)
+                            else:
+                                fut.set_exception(ValueError("user"))
+                        io.call_later(d, res)
+                    return fut
+            else:
+                d, ok = fn[1], fn[2]
+
+                async def f():
+                    try:
+                        if d is None:
+                            await Future()
+                        elif d > 0:
+                            await asyncio.sleep(d)
+                    except asyncio.CancelledError:
+                        rec["saw"] = True
+                        raise
+                    if not ok:
+                        raise ValueError("user")
+                    return 42
+            return f
+
+        for op in case["ops"]:
+            t0, l0 = now(), len(sink)
+            if op[0] == "advance":
+                lp._vtime += op[1]
+                continue
+            if op[0] == "runFor":
+                io.call_later(op[1], io.stop)
+                returned = True
+                try:
+                    io.start()
+                except _Hang:
+                    returned = False
+                recs.append({"op": "runFor", "returned": returned, "dt": now() - t0, "logs": len(sink) - l0, **rest()})
+                if not returned:
+                    break
+                continue
+            rec = {"saw": False}
+            n0 = len(cell)
+            try:
+                r = io.run_sync(make(op[1], rec), timeout=op[2])
+                out = "result" if r in (42, None) else "Unexpected:%r" % (r,)
+            except _Hang:
+                out = "hang"
+            except gen.BadYieldError:
+                out = "badYield"
+            except asyncio.TimeoutError:
+                out = "timeoutError"
+            except ValueError:
+                out = "userError"
+            except RuntimeError as e:
+                out = "runtimeError" if "stopped before" in str(e) else "Uncaught:RuntimeError:%s" % e
+            except Exception as e:
+                out = "Uncaught:" + type(e).__name__
+            fut = cell[n0] if len(cell) > n0 else None
+            cancelled = bool(fut is not None and fut.cancelled())
+            creq = cancelled or bool(fut is not None and hasattr(fut, "cancelling") and fut.cancelling() > 0)
+            recs.append({"op": "call", "out": out, "cancelled": cancelled,
+                         "pending": bool(fut is None or not fut.done()), "creq": creq, "saw": rec["saw"],
+                         "returned": out != "hang", "dt": now() - t0, "logs": len(sink) - l0, **rest()})
+            if out == "hang":
+                break
+        for f in cell:        # abandoned tasks that failed later: mark the exception retrieved (no asyncio noise at GC)
+            try:
+                if f.done() and not f.cancelled():
+                    f.exception()
+            except Exception:
+                pass
+        other = sorted(set(e[1] for e in sink if not (isinstance(e[1], str) and e[1].startswith("other:res"))))
+        return {"recs": recs, "fired": fired, "other_logs": [str(x) for x in other]}
 
 
 def _run_threads(case):
@@ -775,6 +1024,8 @@ def run_impl(case):
         return _run_prog(case)
     if case["kind"] == "runsync":
         return _run_runsync(case)
+    if case["kind"] == "rsseq":
+        return _run_rsseq(case)
     return _run_threads(case)
 
 
@@ -807,6 +1058,38 @@ def _w_func(f):
     if f[0] == "awaitable":
         return [atom("awaitable"), f[1], atom(bool(f[2]))]
     return [atom(f[0])] + f[1:]
+
+
+def _w_rsfn(f):
+    if f[0] in ("coro", "fut"):
+        return [atom(f[0]), f[1], atom(bool(f[2]))]
+    return [atom(f[0])] + f[1:]
+
+
+def _w_rsops(ops):
+    return [[atom("call"), _w_rsfn(o[1]), o[2]] if o[0] == "call" else [atom(o[0]), o[1]] for o in ops]
+
+
+def _w_rsrec(r):
+    b = lambda x: atom(bool(x))
+    ts = [[i, w] for i, w in r["timers"]]
+    if r["op"] == "call":
+        return [atom("call"), atom(r["out"]), b(r["cancelled"]), b(r["pending"]), b(r["creq"]), b(r["saw"]), b(r["returned"]),
+                r["dt"], ts, r["nready"], r["logs"]]
+    return [atom("runFor"), b(r["returned"]), r["dt"], ts, r["nready"], r["logs"]]
+
+
+def _rs_plain(v):
+    v = _plain(v)
+    if v[0] == "call":
+        return {"op": "call", "out": v[1], "cancelled": v[2], "pending": v[3], "creq": v[4], "saw": v[5], "returned": v[6],
+                "dt": v[7], "timers": v[8], "nready": v[9], "logs": v[10]}
+    return {"op": "runFor", "returned": v[1], "dt": v[2], "timers": v[3], "nready": v[4], "logs": v[5]}
+
+
+def _rs_expressible(impl):
+    return all(r["op"] != "call" or r["out"] in ("result", "userError", "badYield", "timeoutError", "runtimeError", "hang")
+               for r in impl["recs"])
 
 
 def _plain(v):
@@ -858,6 +1141,8 @@ def model_requests(case, impl):
         return [line(ID, "run", _w_tbl(case["tbl"]), pref, [_w_act(a) for a in case["main"]], 3000)]
     if case["kind"] == "runsync":
         return [line(ID, "runsync", _w_func(case["func"]), case["timeout"])]
+    if case["kind"] == "rsseq":
+        return [line(ID, "rsseq", atom(False), impl["fired"], _w_rsops(case["ops"]), 400)]
     return []
 
 
@@ -878,6 +1163,11 @@ def model_result(case, replies):
     if case["kind"] == "runsync":
         st, vals = parse_reply(replies[0])
         return {"outcome": _plain(vals[0]) if st == "ok" else vals}
+    if case["kind"] == "rsseq":
+        st, vals = parse_reply(replies[0])
+        if st != "ok":
+            return {"err": vals}
+        return [_rs_plain(r) for r in vals[0]]
     return "n/a"
 
 
@@ -889,7 +1179,9 @@ def impl_view(case, impl):
     if case["kind"] == "prog":
         return {"events": _plain([_w_ev(e) for e in impl["events"]]), "idle": impl["idle"]}
     if case["kind"] == "runsync":
-        return impl
+        return {"outcome": impl["outcome"]}
+    if case["kind"] == "rsseq":
+        return impl["recs"]
     return "n/a"
 
 
@@ -904,6 +1196,10 @@ def spec_requests(case, impl):
         return [line(ID, "spec", [_w_ev(e) for e in impl["events"]], atom(bool(impl["idle"])))]
     if case["kind"] == "runsync":
         return [line(ID, "runsyncspec", _w_func(case["func"]), case["timeout"])]
+    if case["kind"] == "rsseq":
+        if not _rs_expressible(impl):
+            return []
+        return [line(ID, "rsspec", _w_rsops(case["ops"]), [_w_rsrec(r) for r in impl["recs"]])]
     return []
 
 
@@ -945,7 +1241,23 @@ def spec_violation(case, impl, replies):
         if impl["outcome"] != want:
             return "run_sync clause violated: func=%r timeout=%r (%s): expected %s, got %s" % (
                 case["func"], case["timeout"], case["variant"], want, impl["outcome"])
+        if impl["outcome"] == "timeoutError" and not impl.get("cancelled"):
+            return "run_sync clause timeout_not_cancelled violated: func=%r timeout=%r (%s): TimeoutError but the function's future is not cancelled" % (
+                case["func"], case["timeout"], case["variant"])
         return None
+    if case["kind"] == "rsseq":
+        if not _rs_expressible(impl):
+            return "run_sync clause run_sync_outcome violated: an exception that is neither the function's nor TimeoutError: %r" % (
+                [r.get("out") for r in impl["recs"]],)
+        st, vals = parse_reply(replies[0])
+        if st != "ok":
+            return "rsseq: observed records are not expressible (%s)" % (vals,)
+        if vals[0]:
+            return "run_sync clause %s violated by the run_sync sequence %r: observed %r" % (
+                "+".join(sorted(set(map(str, vals[0])))), case["ops"],
+                [(r.get("out"), "cancelled" if r.get("cancelled") else "not-cancelled") if r["op"] == "call" else ("runFor", r["dt"])
+                 for r in impl["recs"]])
+        return None       # (log records are compared with the model, op by op; they are not a clause of the property)
     if impl["timeout"] or impl["count"] != impl["expected"] or impl["distinct"] != impl["expected"]:
         return "threads clause exactly_once violated: %r" % (impl,)
     if not impl["per_thread_in_order"]:
@@ -963,6 +1275,8 @@ def nontrivial(case, impl):
         return nt >= 2 and (any(e[0] == "removed" for e in evs) or any(e[0] == "logged" for e in evs) or late)
     if case["kind"] == "runsync":
         return case["timeout"] is not None and case["func"][0] in ("awaitable", "stopsLoop")
+    if case["kind"] == "rsseq":
+        return any(o[0] == "call" and o[2] is not None and o[1][0] in ("coro", "fut", "stopsLoop") for o in case["ops"])
     return True
 
 
@@ -998,6 +1312,24 @@ def stats(case, impl):
     elif case["kind"] == "runsync":
         out.append("runsync:%s:%s" % (case["func"][0], impl["outcome"]))
         out.append("variant:" + case["variant"])
+    elif case["kind"] == "rsseq":
+        calls = [o for o in case["ops"] if o[0] != "advance"]
+        out.append("rsseq:ops:%d" % len(case["ops"]))
+        for o, r in zip(calls, impl["recs"]):
+            if o[0] == "call":
+                out.append("rsseq:%s:%s" % (o[1][0], r["out"]))
+                if r["out"] == "timeoutError":
+                    out.append("rsseq:timeout:%s%s" % ("cancelled" if r["cancelled"] else "pending", ":saw" if r["saw"] else ""))
+                if o[1][0] in ("coro", "fut") and o[1][1] is not None and o[1][1] == o[2]:
+                    out.append("rsseq:tie")
+            else:
+                out.append("rsseq:runFor:" + ("exact" if r["dt"] == o[1] else "early"))
+            if r["timers"]:
+                out.append("rsseq:leftover-timers")
+            if r["nready"]:
+                out.append("rsseq:leftover-ready")
+            if r["logs"]:
+                out.append("rsseq:logged")
     return out
 
 
@@ -1006,6 +1338,8 @@ def signature(case, impl, why):
     m = re.search(r"clause ([A-Za-z_+]+)", why)
     if case["kind"] == "runsync":
         return "runsync/%s/%s" % (case["func"][0], impl.get("outcome", "?"))
+    if case["kind"] == "rsseq":
+        return "rsseq/%s" % (m.group(1) if m else "?")
     return "%s/%s" % (case["kind"], m.group(1) if m else re.sub(r"[^A-Za-z]+", "-", why)[:40])
 
 
@@ -1025,6 +1359,23 @@ def shrink(case):
         used = {b["src"] for b in bs} | {b["dst"] for b in bs}
         if len(case["loops"]) > 2 and len(used) <= 2 and max(used) < 2:
             yield {**case, "loops": case["loops"][:2]}
+        return
+    if case["kind"] == "rsseq":
+        ops = case["ops"]
+        for i in range(len(ops)):
+            if len(ops) > 1:
+                yield {**case, "ops": ops[:i] + ops[i + 1:]}
+        for i, o in enumerate(ops):
+            if o[0] == "call":
+                f = o[1]
+                if f[0] not in ("raises", "retNone"):
+                    yield {**case, "ops": ops[:i] + [["call", ["retNone"], o[2]]] + ops[i + 1:]}
+                if f[0] in ("coro", "fut") and f[1]:
+                    yield {**case, "ops": ops[:i] + [["call", [f[0], f[1] - 1, f[2]], o[2]]] + ops[i + 1:]}
+                if o[2]:
+                    yield {**case, "ops": ops[:i] + [["call", f, o[2] - 1]] + ops[i + 1:]}
+            elif o[1] > 0:
+                yield {**case, "ops": ops[:i] + [[o[0], o[1] - 1]] + ops[i + 1:]}
         return
     if case["kind"] != "prog":
         return
